@@ -39,7 +39,25 @@ def truth(D):
     return out
 
 
+def same_sel(rs, cs, ia=False):
+    """value of the test `slices[0] == slices[1]` of the Sliced annotation rule for the selectors built from rs / cs
+    (arithmetic progressions are built as python slices, other lists as integer arrays)"""
+    a, b = (None, None) if ia else (T.range_slice(rs), T.range_slice(cs))
+    if a is not None and b is not None:
+        return a == b
+    if a is None and b is None:
+        return len(rs) == len(cs) and list(rs) == list(cs)
+    return False
+
+
+def _sel(idx, ia=False):
+    s_ = T.range_slice(idx)
+    return s_ if (s_ is not None and not ia) else np.array(idx, dtype=np.int64)
+
+
 class AGen:
+    index_arrays = True
+
     def __init__(self, rnd, gen):
         self.rnd, self.gen = rnd, gen
 
@@ -172,7 +190,14 @@ class AGen:
             else:
                 rs = list(range(0, r.randint(1, m)))
                 cs = list(range(r.randint(0, n - 1), n))
-            an, t = dict(x="sliced", a=a, rs=rs, cs=cs, same=(T.range_slice(rs) == T.range_slice(cs))), dict(k="Sliced", a=ta, rs=rs, cs=cs)
+            ia = False
+            if self.index_arrays and m == n and m >= 2 and r.random() < 0.4:
+                # integer index arrays (distinct indices in arbitrary order): equal arrays, or the same index set in another order
+                ia = True
+                k = r.randint(2, m)
+                rs = r.sample(range(m), k)
+                cs = list(rs) if r.random() < 0.4 else r.sample(rs, k)
+            an, t = dict(x="sliced", a=a, rs=rs, cs=cs, ia=ia, same=same_sel(rs, cs, ia)), dict(k="Sliced", a=ta, rs=rs, cs=cs, ia=ia)
         an["decl"] = self.decl_for(T.dense(t)) if r.random() < 0.4 else []
         return an, t
 
@@ -210,7 +235,7 @@ def build(an):
     elif x == "adj":
         A = ops.Adjoint(build(an["a"]))
     elif x == "sliced":
-        A = ops.Sliced(build(an["a"]), (T.range_slice(an["rs"]), T.range_slice(an["cs"])))
+        A = ops.Sliced(build(an["a"]), (_sel(an["rs"], an.get("ia")), _sel(an["cs"], an.get("ia"))))
     for d in an.get("decl", []):
         A = getattr(cola, d)(A)
     return A
@@ -453,6 +478,7 @@ def run(ctx):
     rnd = ctx.rng
     gen = T.Gen(rnd, kinds=("Dense", "Diag", "Tri", "Tridiag", "Sum", "Prod", "Kron", "Transp", "Adj"))
     ag = AGen(rnd, gen)
+    ag.index_arrays = "sliced_index_array_cpu" not in c01_present
     n = ctx.budget(600, 6000)
     cases = []
     tries = 0
